@@ -3,6 +3,7 @@ CONSTANTS Kinds = {"plain"}
           MixedServerSet = {}
           MixedCoreServers = {}
           MixedMethKeys = {"G", "P", "GP"}
+          PlainMethKeys = {"G", "P", "GP"}
           MaxLen = 3
           MaxT = 2
           ServerSet = {"none", "psfirst"}
@@ -11,5 +12,6 @@ CONSTANTS Kinds = {"plain"}
           CoreServers = {}
           Slice = 25
           Seed = 1
+          DesignAll = TRUE
 INVARIANTS DesignOK Emit
 CHECK_DEADLOCK FALSE
